@@ -209,11 +209,13 @@ theorem bindObject_pat (a : Addr) (sc : List Addr) : (pr : PatProps) → ∀ (fu
     obtain ⟨n, rfl⟩ : ∃ n, fuel = n + 3 := ⟨fuel - 3, by omega⟩
     rw [PatProps.toProps, bindObject, pmatchProps]
     simp only [Bool.false_eq_true, if_false, Expr.raw, Expr.loc]
-    refine toRes_bind' ?_ ?_
-    · rw [bindObjectProp]
-      by_cases hx : x = c!"_"
-      · rw [if_pos hx, if_pos hx]; rfl
-      · rw [if_neg hx, if_neg hx, getObj_setScope hs, hb]
+    by_cases hx : x = c!"_"
+    · rw [if_pos hx, if_pos hx]
+      simp only [MRes.bind]
+      exact bindObject_pat a sc r (n + 2) o b (i + 1) total _ names m σ (by omega) hs hb
+    · rw [if_neg hx, if_neg hx]
+      refine toRes_bind' ?_ ?_
+      · rw [bindObjectProp, getObj_setScope hs, hb]
         dsimp only
         cases objGet x o with
         | none => rfl
@@ -221,16 +223,13 @@ theorem bindObject_pat (a : Addr) (sc : List Addr) : (pr : PatProps) → ∀ (fu
           dsimp only
           rw [bindNext_var]
           exact bindNextName_set sc names m x l v hs
-    · intro N M S hres
-      have hS : S = σ := by
-        by_cases hx : x = c!"_"
-        · rw [if_pos hx] at hres; cases hres; rfl
-        · rw [if_neg hx] at hres
+      · intro N M S hres
+        have hS : S = σ := by
           cases ho : objGet x o with
           | none => rw [ho] at hres; cases hres
           | some v => rw [ho] at hres; exact mName_ok_state hres
-      subst hS
-      exact bindObject_pat a sc r (n + 2) o b (i + 1) total _ N M S (by omega) hs hb
+        subst hS
+        exact bindObject_pat a sc r (n + 2) o b (i + 1) total _ N M S (by omega) hs hb
   | .pair k lk p r, fuel, o, b, i, total, rem, names, m, σ, hf, hs, hb => by
     simp only [PatProps.size] at hf
     have hp := Pat.size_pos p
@@ -239,24 +238,18 @@ theorem bindObject_pat (a : Addr) (sc : List Addr) : (pr : PatProps) → ∀ (fu
     rw [PatProps.toProps, bindObject, pmatchProps, evalToStr_lit _ _ _ _ _ _ (utf8_roundtrip' k)]
     simp only [Res.bind, Expr.loc]
     refine toRes_bind' ?_ ?_
-    · rw [bindObjectProp]
-      by_cases hx : k = c!"_"
-      · rw [if_pos hx, if_pos hx]; rfl
-      · rw [if_neg hx, if_neg hx, getObj_setScope hs, hb]
+    · rw [bindObjectProp, getObj_setScope hs, hb]
+      dsimp only
+      cases objGet k o with
+      | none => rfl
+      | some v =>
         dsimp only
-        cases objGet k o with
-        | none => rfl
-        | some v =>
-          dsimp only
-          exact bindNext_pat a sc p (n + 1) names m σ v (by omega) hs
+        exact bindNext_pat a sc p (n + 1) names m σ v (by omega) hs
     · intro N M S hres
       have he : PExt σ S := by
-        by_cases hx : k = c!"_"
-        · rw [if_pos hx] at hres; cases hres; exact PExt.refl _
-        · rw [if_neg hx] at hres
-          cases ho : objGet k o with
-          | none => rw [ho] at hres; cases hres
-          | some v => rw [ho] at hres; exact pmatch_ok_ext hres
+        cases ho : objGet k o with
+        | none => rw [ho] at hres; cases hres
+        | some v => rw [ho] at hres; exact pmatch_ok_ext hres
       exact bindObject_pat a sc r (n + 2) o b (i + 1) total _ N M S (by omega) (hs.ext he) (he.getObj hb)
   | .rest x l r, fuel, o, b, i, total, rem, names, m, σ, hf, hs, hb => by
     simp only [PatProps.size] at hf
